@@ -53,6 +53,19 @@ func harnessC03DistinctKeys() {
 	if a != b {
 		verif_assert(DeriveSessionKey(secret, id1, a, b, true).Key() != DeriveSessionKey(secret, id1, b, a, true).Key(), "C03/key-order-not-mixed-into-key")
 	}
+	// each ephemeral public key is mixed in on its own: with everything else equal (also the
+	// shared secret, as for responder keys that are different encodings of one point), a
+	// different initiator key or a different responder key gives a different session key
+	var c [KeySize]byte
+	for i := range c {
+		c[i] = verif_nondet_u8()
+	}
+	if c != b {
+		verif_assert(DeriveSessionKey(secret, id1, a, b, true).Key() != DeriveSessionKey(secret, id1, a, c, true).Key(), "C03/responder-key-not-mixed-into-key")
+	}
+	if c != a {
+		verif_assert(DeriveSessionKey(secret, id1, a, b, true).Key() != DeriveSessionKey(secret, id1, c, b, true).Key(), "C03/initiator-key-not-mixed-into-key")
+	}
 }
 
 func harnessC03Degenerate() {
